@@ -264,6 +264,26 @@ def handleLine (st0 : DrvSt) (line : String) : DrvSt × String :=
               | .keyError => V.list [.sym "KeyError", cont]
               | .typeError => V.list [.sym "TypeError", cont]))
         (st, match r with | some vs => (V.list vs).render | none => "(bad-op)")
+      | "shape.accepts", [.list queries] =>
+        -- query: (shape (req…) arg) | (vec2 arg) | (viewport arg) | (coupled a b c) | (event single (sized n)|notIterable)
+        let arg : V → Option Arg
+          | .list [.sym "nd", s] => do pure (.ndarray (← s.nats?))
+          | .list [.sym "list", n] => do pure (.list (← n.nat?))
+          | .list [.sym "tuple", n] => do pure (.tuple (← n.nat?))
+          | .sym "vp" => some .viewport
+          | .sym "other" => some .other
+          | _ => none
+        let r : Option (List V) := queries.mapM (fun q => do
+          let b ← match q with
+            | .list [.sym "shape", req, a] => do pure (acceptsShape (← req.nats?) (← arg a))
+            | .list [.sym "vec2", a] => do pure (acceptsVec2 (← arg a))
+            | .list [.sym "viewport", a] => do pure (acceptsViewport (← arg a))
+            | .list [.sym "coupled", a, b, c] => do pure (acceptsCoupled (← arg a) (← arg b) (← arg c))
+            | .list [.sym "event", s, .list [.sym "sized", n]] => do pure (acceptsEvent ((← s.nat?) != 0) (.sized (← n.nat?)))
+            | .list [.sym "event", s, .sym "notIterable"] => do pure (acceptsEvent ((← s.nat?) != 0) .notIterable)
+            | _ => none
+          pure (V.int (if b then 1 else 0)))
+        (st, match r with | some vs => (V.list vs).render | none => "(bad-op)")
       | "fs.run", [.list nodes, .list ops] =>
         -- nodes: ((path kind #bytes) …) with kind file|dir ; ops: (new p now) | (copy src dst) | (open p)
         let mk : V → Option (Nat × Node)
